@@ -17,13 +17,15 @@ import (
 func init() {
 	register(&Prop{
 		ID:          "C10",
-		Explanation: "PARTIAL claim — decides the structural agreements a save/load round trip needs, not the round trip as behaviour: (1) each store encodes and decodes with the same compression flag constant and the same cipher source, the persistence layer saves, loads and clears under the same ticket field, and EncodeSessionState/DecodeSessionState mirror each other (marshal -> [lz4 iff flag] -> Encrypt versus Decrypt -> [lz4 iff flag] -> Unmarshal into the returned object); (2) every field of SessionState other than the two reviewed runtime helpers is serialised under a unique msgpack key; (3) the splitter and the loader derive part names through the same function with consecutive indices from 0, the loader prefers the unsplit cookie and otherwise joins the parts in index order onto a copy of part 0 named like the whole, and the splitter's chunks are consecutive slices cut at one point; (4) because the loader consults names a save of another size does not overwrite, the cookie store's Save reads the presented cookie jar and expires every presented session cookie (quoted name, optional _N suffix) it did not just write; (5) the split threshold constant is at most 4096 and every emitted chunk, and the unsplit cookie, was measured against it with len(cookie.String()); (6) Clear sweeps every presented session cookie and the ticket store's Clear deletes the stored session (shared with C11.R2/R3); (7) the ticket's cookie encoding and its two decoders agree on version tag, part count, part order and base64 alphabet; (8) the codec's compression plumbing uses no length-limited reader or copy in either direction and hands out compressed bytes only after the writer closed without error; (9) no function on the cookie store's load path (including Validate and the ciphers) tests a length against an upper bound. Round 4: the stored entry's TTL is Cookie.Expire handed unchanged from ticket.saveSession to the redis SET, so the entry lives as long as the cookie naming it (R10, shared with C09.R5). Round 5: the configured cookie-domain list is never reordered or written after validation, so later saves and clears address the cookies earlier saves set (R11, shared with C18.R5). Round 7: request handling keeps no state of its own between requests — no store, map update, in-place builtin, atomic/sync.Map write or pointer-receiver library call (singleflight, caches) reached from ServeHTTP targets a package-level variable, an object built at start-up, or a constructor variable captured by the handler it returned, declared in the packages implementing this property (RS; a class-wide who-may-write rule with zero instances today: a correct memoisation would be reported until reviewed).",
+		Explanation: "PARTIAL claim — decides the structural agreements a save/load round trip needs, not the round trip as behaviour: (1) each store encodes and decodes with the same compression flag constant and the same cipher source, the persistence layer saves, loads and clears under the same ticket field, and EncodeSessionState/DecodeSessionState mirror each other (marshal -> [lz4 iff flag] -> Encrypt versus Decrypt -> [lz4 iff flag] -> Unmarshal into the returned object); (2) every field of SessionState other than the two reviewed runtime helpers is serialised under a unique msgpack key; (3) the splitter and the loader derive part names through the same function with consecutive indices from 0, the loader prefers the unsplit cookie and otherwise joins the parts in index order onto a copy of part 0 named like the whole, and the splitter's chunks are consecutive slices cut at one point; (4) because the loader consults names a save of another size does not overwrite, the cookie store's Save reads the presented cookie jar and expires every presented session cookie (quoted name, optional _N suffix) it did not just write; (5) the split threshold constant is at most 4096 and every emitted chunk, and the unsplit cookie, was measured against it with len(cookie.String()); (6) Clear sweeps every presented session cookie and the ticket store's Clear deletes the stored session (shared with C11.R2/R3); (7) the ticket's cookie encoding and its two decoders agree on version tag, part count, part order and base64 alphabet; (8) the codec's compression plumbing uses no length-limited reader or copy in either direction and hands out compressed bytes only after the writer closed without error; (9) no function on the cookie store's load path (including Validate and the ciphers) tests a length against an upper bound. Round 4: the stored entry's TTL is Cookie.Expire handed unchanged from ticket.saveSession to the redis SET, so the entry lives as long as the cookie naming it (R10, shared with C09.R5). Round 5: the configured cookie-domain list is never reordered or written after validation, so later saves and clears address the cookies earlier saves set (R11, shared with C18.R5). Round 7: request handling keeps no state of its own between requests — no store, map update, in-place builtin, atomic/sync.Map write or pointer-receiver library call (singleflight, caches) reached from ServeHTTP targets a package-level variable, an object built at start-up, or a constructor variable captured by the handler it returned, declared in the packages implementing this property (RS; a class-wide who-may-write rule with zero instances today: a correct memoisation would be reported until reviewed). Round 8 (class-wide, P12): in the packages implementing this property every named error result that is used at all is examined — compared with nil, returned, stored or handed to a non-formatting function — unless the code validates the value result instead (RE; zero instances today).",
 		NotDecided:  "the round trip itself over all sizes and field contents (msgpack/lz4/AES value semantics), byte arithmetic at the split boundary, truncated part names for cookie names longer than 250 bytes, browser jar semantics (path/domain scoping, eviction), Redis behaviour.",
 		Run:         runC10,
 	})
 }
 
 func runC10(c *Ctx) {
+	c.R.Rule("RE-errors-examined", "in the packages implementing this property every named error result that is used at all is examined, or the value is validated instead (P12, class-wide, round 8)", 1)
+	runErrorsExamined(c, "RE-errors-examined", "pkg/sessions/cookie", "pkg/apis/sessions")
 	c.R.Rule("RS-no-request-time-state", "request handling writes no state that outlives the request (package-level variables, objects built at start-up, constructor variables captured by handlers) declared in the packages implementing this property", 1)
 	runStateless(c, "RS-no-request-time-state", "pkg/sessions", "pkg/cookies", "pkg/encryption")
 	r := c.R
@@ -762,20 +764,47 @@ func runC10R7(c *Ctx, rule string) {
 	var encAlphabet [2]string
 	var fieldOrder [2]*types.Var
 	okEnc := false
+	// the two encoded operands and the format they are put into: Sprintf("<tag>.%s.%s", a, b) or "<tag>." + a + "." + b
+	type encForm struct {
+		format string
+		elems  []ssa.Value
+	}
+	var forms []encForm
 	for _, b := range enc.Blocks {
 		for _, in := range b.Instrs {
-			call, ok := in.(*ssa.Call)
-			if !ok || !isStd(&call.Call, "fmt", "Sprintf") {
-				continue
+			if call, ok := in.(*ssa.Call); ok && isStd(&call.Call, "fmt", "Sprintf") {
+				if f, ok := ConstString(call.Call.Args[0]); ok {
+					forms = append(forms, encForm{f, []ssa.Value{varargElem(call.Call.Args[1], 0), varargElem(call.Call.Args[1], 1)}})
+				}
 			}
-			f, ok := ConstString(call.Call.Args[0])
-			if !ok {
-				continue
+			if ret, ok := in.(*ssa.Return); ok && len(ret.Results) > 0 {
+				var flat []ssa.Value
+				var rec func(v ssa.Value)
+				rec = func(v ssa.Value) {
+					if x, ok := v.(*ssa.BinOp); ok && x.Op == token.ADD {
+						rec(x.X)
+						rec(x.Y)
+						return
+					}
+					flat = append(flat, v)
+				}
+				rec(ret.Results[0])
+				if len(flat) == 4 {
+					tag, ok1 := ConstString(flat[0])
+					dot, ok2 := ConstString(flat[2])
+					if ok1 && ok2 {
+						forms = append(forms, encForm{tag + "%s" + dot + "%s", []ssa.Value{flat[1], flat[3]}})
+					}
+				}
 			}
-			format = f
+		}
+	}
+	for _, fm := range forms {
+		{
+			format = fm.format
 			okEnc = true
 			for i := int64(0); i < 2; i++ {
-				el := varargElem(call.Call.Args[1], i)
+				el := fm.elems[i]
 				if el == nil {
 					okEnc = false
 					continue
